@@ -1,5 +1,5 @@
 From Coq Require Import ZArith List Bool Lia ZifyBool.
-From HV Require Import Prelude.Py Prelude.State Bridge.BridgeTac.
+From HV Require Import Prelude.Py Prelude.State Bridge.BridgeConsts.
 From HV Require Gen.GData Gen.GInt Gen.GTable Gen.GHuff Model.Data Model.Int Model.Table Model.HuffEnc Model.HuffDec.
 Open Scope Z_scope.
 Lemma b_HeaderTable_set_maxsize : forall t m, GTable.HeaderTable_set_maxsize t m = Table.HeaderTable_set_maxsize t m.
